@@ -78,7 +78,7 @@ PROPS = {
         "technique": "deterministic simulation of client/handler tasks over the wrapper + differential comparison of client transcripts against real gRPC (bufconn) executions of the same scripted programs",
         "rule": ("scripts (shape, 0-5 rounds of C>S / S>C / SendHeader / SetHeader / SetTrailer / half-close, terminal: return OK / status / client cancel / deadline, mutate-after-send) and the task interleaving come from the decision tape; every run is non-trivial (two parties); distinct = distinct (script, schedule) fingerprints"),
         "scenarios": [
-            {"name": "wrap", "quick": 12000, "thorough": 1000000, "thorough_time": 400},
+            {"name": "wrap", "quick": 60000, "thorough": 1000000, "thorough_time": 400},
         ],
         "require_hits": [],
         "assumptions": ["neither party relies on transport buffering (as in the statement)", "the error values a server's Recv/Send return after the call is over are not compared"],
